@@ -56,9 +56,49 @@ type vProcT struct {
 	badJSON   int           // requests whose body was not valid JSON (any run, tainted or not)
 	crashed   chan struct{} // closed when the processor goroutine panicked (the real worker would exit 3)
 	tainted   map[string]bool
+	snap      map[*App]vSnap // the applications' timestamps as corrected at the start of the previous op
+	prevStart time.Time
+	prevEnd   time.Time
 }
 
 var vProc *vProcT
+
+type vSnap struct{ lca, la time.Time }
+
+// compensate takes the real time that has passed out of the applications' timestamps.  A timestamp the processor did not
+// touch during the previous op is moved by the time since that op STARTED (when it was last corrected); one that was set
+// during the previous op (to the real clock) is moved by the time since that op ENDED.  The residue is positive and bounded
+// by the duration of one op; it does not accumulate.
+func (v *vProcT) compensate() {
+	now := time.Now()
+	if v.snap == nil {
+		v.snap = map[*App]vSnap{}
+	}
+	dEnd := now.Sub(v.prevEnd)
+	if v.prevEnd.IsZero() {
+		dEnd = 0
+	}
+	for _, app := range v.p.apps {
+		sn, known := v.snap[app]
+		fix := func(cur, old time.Time) time.Time {
+			if cur.IsZero() {
+				return cur
+			}
+			if known && cur.Equal(old) {
+				return cur.Add(now.Sub(v.prevStart))
+			}
+			return cur.Add(dEnd)
+		}
+		app.lastConnectAttempt = fix(app.lastConnectAttempt, sn.lca)
+		app.LastActivity = fix(app.LastActivity, sn.la)
+		v.snap[app] = vSnap{app.lastConnectAttempt, app.LastActivity}
+	}
+	v.prevStart = now
+}
+
+func (v *vProcT) noteApps() {
+	v.prevEnd = time.Now()
+}
 
 const vWatchdog = 3 * time.Second
 
@@ -957,6 +997,12 @@ func vProcOp(t []string) string {
 	if v.isCrashed() {
 		return "processor-crashed"
 	}
+	// virtual time: the clock of a history moves only with `advance`.  The real time that passes between ops (little on an
+	// idle machine, seconds on a loaded one) is taken out again by moving the applications' timestamps forward by it; an
+	// application first seen at the end of an op is compensated from then on, so the residue is positive and bounded by the
+	// duration of one op.  The processor goroutine is parked between ops.
+	v.compensate()
+	defer v.noteApps()
 	switch op {
 	case "taint":
 		v.mu.Lock()
